@@ -18,6 +18,18 @@ def hint(e: ast.AST):
         return e.id
     if isinstance(e, ast.Attribute):
         return e.attr.lstrip("_")
+    if isinstance(e, ast.Call) and isinstance(e.func, ast.Attribute) and e.func.attr == "get" and e.args and isinstance(e.args[0], ast.Constant) \
+            and isinstance(e.args[0].value, str):
+        return e.args[0].value  # kwargs.get("x") / kwargs.get("x", default): default only when the key is absent
+    return None
+
+
+def falsy_fallback(e: ast.AST):
+    """`value or default` / `value if value else default`: the hinted name when a given-but-falsy value (0, '', False) is replaced."""
+    if isinstance(e, ast.BoolOp) and isinstance(e.op, ast.Or) and len(e.values) >= 2:
+        return hint(e.values[0])
+    if isinstance(e, ast.IfExp) and hint(e.body) is not None and ast.dump(e.test) == ast.dump(e.body):
+        return hint(e.body)
     return None
 
 
@@ -47,6 +59,13 @@ def check_function(ctx, rid, fi, cg=None):
             params = params[1:]
         kwonly = [a.arg for a in target.node.args.kwonlyargs]
         allp = set(params) | set(kwonly)
+        for i, a in enumerate(list(node.args) + [k.value for k in node.keywords if k.arg is not None]):
+            fb = falsy_fallback(a)
+            if fb is not None and fb in allp:
+                n += 1
+                R.fail(rid, f"{ctx.fq(fi)} -> {target.qualname}: {ast.unparse(a)[:50]}", mod=fi.module, node=node, function=ctx.fq(fi),
+                       expected=f"the value given for {fb!r} is passed on as it is (0 / empty / False are legal values)",
+                       found="`value or default`: a value that was given but is falsy is replaced by the default", key_extra=f"falsy:{fb}")
         for i, a in enumerate(node.args):
             if isinstance(a, ast.Starred):
                 break
